@@ -255,4 +255,66 @@ class C14d(Obligation):
             ctx.check(log.count('close-' + n) == 1, 'every pipe is closed, whatever happened to the others')
 
 
-OBLIGATIONS = [C14a, C14b, C14c, C14d]
+import queue as _queue  # noqa: E402
+
+
+class C14e(Obligation):
+    id = 'C14.e'
+    title = 'stderr of a dying helper can never turn the InternalError into another exception (any bytes)'
+    pattern = 'P3 (stderr lines are arbitrary byte strings)'
+    assumptions = ('the stderr queue holds n<=2 lines drawn from valid UTF-8, invalid UTF-8 and empty bytes',)
+
+    def configs(self, tier):
+        return [dict(n=n) for n in (0, 1, 2)]
+
+    def scenario(self, ctx, cfg):
+        samples = (b'plain line\n', b'caf\xe9 \xff\xfe broken\n', b'', b'\xe2\x82')
+        q = _queue.Queue()
+        for i in range(cfg['n']):
+            q.put(samples[ctx.choice('line%d' % i, len(samples))])
+        ctx.int('unused')
+        ctx.force(jsub._add_stderr_to_debug)
+        out = ctx.call(jsub._add_stderr_to_debug, q)
+        ctx.check(out.exc is None, 'reporting the helper\'s stderr never raises')
+        ctx.check(q.empty(), 'the queue is drained')
+
+
+class C14f(Obligation):
+    id = 'C14.f'
+    title = 'a handle that sent a request is marked used even if the request fails, so its helper-side state is released'
+    pattern = 'P3 (the request outcome is symbolic: returns or raises helper-side)'
+    assumptions = ('CompiledSubprocess.run is a stub that returns or raises; ids are symbolic',)
+
+    def scenario(self, ctx, cfg):
+        raises = ctx.flag('request_raises_in_helper')
+        sub = CompiledSubprocess('python-exe')
+        sub._pysym_holder = True
+        seen = []
+
+        def run(inference_state_id, function, args=(), kwargs={}):
+            seen.append(inference_state_id)
+            if raises:
+                raise ValueError('embedded null byte')
+            return 'RESULT'
+        sub.run = run
+        me = ctx.int('my_id')
+        state = InferenceStateSubprocess.__new__(InferenceStateSubprocess)
+        state._pysym_holder = True
+        state._used = False
+        state._compiled_subprocess = sub
+        state._inference_state_id = me
+        state._handles = {}
+        ctx.patch(jsub, '_get_function', lambda name: len)
+        wrapper = ctx.run(InferenceStateSubprocess.__getattr__, state, 'get_sys_path')
+        ctx.force(wrapper)
+        out = ctx.call(wrapper)
+        ctx.check(len(seen) == 1 and seen[0] == me, 'the request carries the id of this handle')
+        ctx.check(state._used is True, 'the handle counts as used as soon as a request went out, whatever its outcome')
+        ctx.run(InferenceStateSubprocess.__del__, state)
+        q = list(sub._inference_state_deletion_queue)
+        ctx.check(len(q) == 1 and q[0] == me, 'dropping the handle queues the release of its helper-side state')
+        if raises:
+            ctx.check(out.raised(ValueError), 'the helper-side exception is passed on')
+
+
+OBLIGATIONS = [C14a, C14b, C14c, C14d, C14e, C14f]
